@@ -8,11 +8,13 @@ from harness.props import c01, c12
 PID = 'C20'
 LEVEL = 'proof'
 RULE = ('gin-machine/clear: arbitrary op lists (bind through 3 paths, failing ops, calls, finalize, unlock, hooks, '
-        'singleton use, constants in and out of interactive mode, macro definitions) followed by clear_config(b) and '
+        'singleton use, constants in and out of interactive mode -- among them user constants whose value is the '
+        'gin.REQUIRED sentinel and the name gin.REQUIRED given another value --, macro definitions) followed by clear_config(b) and '
         'an observation script (config_str, operative_config_str, lock flag, queries, a call of every configurable, '
         'constants); the same script is run on a second, freshly imported gin with the same registrations (and '
         'surviving constants) — the "fresh process" of the property. non-trivial = history containing a failed op, '
-        'a finalize and a singleton or constant.')
+        'a finalize and a singleton or constant.  Engine clear-runs-finalizers (implementation only): handles kept alive '
+        'by gin alone whose finalizers use gin inside clear_config.')
 TRUSTED_BASE = c01.TRUSTED_BASE
 ASSUMPTIONS = ['imports recorded by parse contexts are covered by the C14/C19 engines; here the history has no import statements']
 
@@ -92,6 +94,21 @@ class ClearEngine(c12.LockEngine):
         {'regs': [f], 'ops': [['constant', 'Y', ['i', 5]], ['constant', 'x.Z', ['i', 6]], ['pbind', 'f.a', ['macro', 'Y']],
                               ['pbind', 'f.b', ['macro', 'Z']], ['clear', False], ['pbind', 'f.a', ['macro', 'Y']], ['clear', True],
                               ['locked'], ['dumpconfig']]},
+        # the REQUIRED sentinel as the VALUE of a user constant: it goes with clear_constants=True like any other constant
+        {'regs': [f], 'ops': [['constant', 'MUST', ['req']], ['constant', 'p.ANS', ['i', 42]], ['pbind', 'f.a', ['macro', 'ANS']],
+                              ['pbind', 'f.b', ['macro', 'MUST']], ['call', 'm.f', [], []], ['finalize'], ['clear', True], ['locked'],
+                              ['dumpconfig'], ['query', 'MUST'], ['query', 'gin.REQUIRED']]},
+        # the NAME gin.REQUIRED given another value (interactive mode): clear_constants=True brings the sentinel back
+        {'regs': [f], 'ops': [['interactive', [['constant', 'gin.REQUIRED', ['s', 'x']]]], ['query', 'gin.REQUIRED'],
+                              ['pbind', 'f.a', ['macro', 'gin.REQUIRED']], ['call', 'm.f', [], []], ['clear', True], ['locked'],
+                              ['dumpconfig'], ['query', 'gin.REQUIRED'], ['pbind', 'f.a', ['macro', 'gin.REQUIRED']],
+                              ['call', 'm.f', [], []], ['finalize']]},
+        # both at once, first through the constants-preserving clear (everything survives), then through the other one
+        {'regs': [f], 'ops': [['interactive', [['constant', 'gin.REQUIRED', ['s', 'x']], ['constant', 'REQUIRED', ['i', 1]],
+                                               ['constant', 'q.MUST', ['req']]]], ['query', 'gin.REQUIRED'],
+                              ['pbind', 'f.a', ['macro', 'REQUIRED']], ['call', 'm.f', [], []], ['clear', False], ['locked'],
+                              ['dumpconfig'], ['query', 'gin.REQUIRED'], ['query', 'MUST'], ['clear', True], ['query', 'MUST'],
+                              ['query', 'gin.REQUIRED']]},
     ]
 
   def gen(self, rng, tier):
@@ -110,7 +127,21 @@ class ClearEngine(c12.LockEngine):
       elif r < 0.75:
         body = [['constant', rng.choice(consts), ginm.gen_plain(rng, 0) if rng.random() < 0.7 else ['obj', 'o1']]
                 for _ in range(rng.randint(1, 3))]
-        ops += [['interactive', body]] if rng.random() < 0.4 else body
+        sentinel = rng.random() < 0.3
+        if sentinel:
+          # the gin.REQUIRED sentinel as a constant like any other: a user constant whose VALUE is the sentinel (a project's
+          # own alias for it), and the NAME 'gin.REQUIRED' (or a name it is a suffix-match of) given another value, which
+          # only interactive mode accepts.  What clear_config keeps is decided by name, never by value.
+          for _ in range(rng.randint(1, 2)):
+            x = rng.random()
+            if x < 0.45:
+              c = ['constant', rng.choice(consts + ['MUST', 'p.MUST']), ['req']]
+            elif x < 0.85:
+              c = ['constant', 'gin.REQUIRED', ginm.gen_plain(rng, 0) if rng.random() < 0.8 else ['req']]
+            else:
+              c = ['constant', rng.choice(['REQUIRED', 'x.REQUIRED']), ginm.gen_plain(rng, 0)]
+            body.insert(rng.randint(0, len(body)), c)
+        ops += [['interactive', body]] if rng.random() < (0.7 if sentinel else 0.4) else body
         if rng.random() < 0.5:
           # a config that USES one of the constants (by any dotted suffix of its name) is parsed while it exists
           c = rng.choice(regs)
@@ -128,8 +159,11 @@ class ClearEngine(c12.LockEngine):
         ops.append(['call', c['sel'], [], []])
       else:
         ops.append(['pbind', rng.choice(['mm', 'nn']), ginm.gen_plain(rng, 1)])
-    ops.append(['clear', rng.random() < 0.3])
+    has_sentinel = any(o[0] == 'constant' and (o[2] == ['req'] or o[1].endswith('REQUIRED')) for o in ginm.flatten_ops(ops))
+    ops.append(['clear', rng.random() < (0.6 if has_sentinel else 0.3)])
     ops += [['locked'], ['dumpconfig'], ['dumpoper']]
+    if has_sentinel:
+      ops += [['query', 'gin.REQUIRED'], ['query', 'MUST']]
     for c in regs:
       ops.append(['call', c['sel'], [], []])
     ops.append(['dumpoper'])
@@ -267,4 +301,386 @@ class ClearDuringConstructionEngine(Engine):
     return {'obs': T('Done'), 'fails': fails, 'nontrivial': True, 'tags': ['cached%d' % case['cached']]}
 
 
-ENGINES = [ClearEngine(), ClearDuringConstructionEngine()]
+# ---------------------------------------------------------------------------------------------------------------------
+# objects that only gin's own tables keep alive, whose finalizers use gin again
+
+FIN_FNS = ('release', 'use', 'other', 'keep')
+FIN_SCOPES = (None, 'fin', 'a/b')
+FIN_KEYS = ('release.flush', 'release.name', 'fin/release.flush', 'a/b/release.name', 'use.repeat', 'other.x', 'fin/other.x',
+            'keep.tag')
+
+
+def _fin_canon(v):
+  if v is None or isinstance(v, (bool, int, str)):
+    return v
+  if isinstance(v, (list, tuple)):
+    return [_fin_canon(x) for x in v]
+  return 'OBJ'
+
+
+class _FinWorld:
+  """One freshly imported gin with the registrations of a case: four configurables and one externally registered handle
+  class per holder of the case.  A handle's finalizer (`__del__`, or a `weakref.finalize` callback) performs the holder's
+  action -- an ordinary use of gin's public API -- and logs that it ran."""
+
+  def __init__(self, case):
+    import weakref
+    self.weakref = weakref
+    self.gin = gin = C.fresh_gin()
+    self.off = False
+    self.calls = []        # (configurable, scope, arguments) of every body that ran
+    self.fin_log = []      # (holder id, outcome) of every finalizer that ran
+    self.refs = {}         # holder id -> weak reference to the handle made for it
+    self.finalizers = []
+    w = self
+
+    @gin.configurable
+    def release(name='h', flush=True):
+      w.calls.append(('release', list(gin.current_scope()), name, flush))
+      return ['release', name, flush]
+
+    @gin.configurable
+    def use(handle=None, repeat=1):
+      w.calls.append(('use', list(gin.current_scope()), _fin_canon(handle), repeat))
+      return ['use', _fin_canon(handle), repeat]
+
+    @gin.configurable
+    def other(x=0, y=None):
+      w.calls.append(('other', list(gin.current_scope()), x, _fin_canon(y)))
+      return ['other', x, _fin_canon(y)]
+
+    @gin.configurable
+    def keep(handle=None, tag=''):      # never called before the clear: what is bound to it lives in the store only
+      w.calls.append(('keep', list(gin.current_scope()), _fin_canon(handle), tag))
+      return ['keep', _fin_canon(handle), tag]
+    self.fns = {'release': release, 'use': use, 'other': other, 'keep': keep}
+    self.classes = {}
+    for h in case['holders']:
+      self.classes[h['id']] = gin.external_configurable(self.make_class(h), 'Handle%d' % h['id'])
+
+  def act(self, h):
+    if self.off:
+      return
+    gin, a = self.gin, h['action']
+    try:
+      if a[0] == 'call':
+        if a[2] is None:
+          self.fns[a[1]]()
+        else:
+          with gin.config_scope(a[2]):
+            self.fns[a[1]]()
+      elif a[0] == 'constant':
+        gin.constant(a[1], 1)
+      elif a[0] == 'import':
+        gin.parse_config('import ' + a[1])
+      elif a[0] == 'read':
+        gin.config_str()
+        gin.operative_config_str()
+        gin.config_is_locked()
+      self.fin_log.append((h['id'], 'ran'))
+    except Exception as e:  # pylint: disable=broad-except
+      self.fin_log.append((h['id'], type(e).__name__))
+
+  def make_class(self, h):
+    w = self
+    if h['fin'] == 'del':
+      class Handle(object):
+        def __del__(self):
+          w.act(h)
+    else:
+      class Handle(object):
+        def __init__(self):
+          w.finalizers.append(w.weakref.finalize(self, w.act, h))      # the callback holds no reference to the handle
+    Handle.__name__ = Handle.__qualname__ = 'Handle%d' % h['id']
+    return Handle
+
+  def hold(self, h):
+    """hands a new handle to gin and keeps no strong reference to it"""
+    gin = self.gin
+    cls = self.classes[h['id']]
+    where = h['where']
+    if where == 'singleton_value':
+      self.refs[h['id']] = self.weakref.ref(gin.config.singleton_value('hk%d' % h['id'], cls))
+    elif where == 'config-singleton':
+      gin.parse_config('hk%d/gin.singleton.constructor = @Handle%d\nuse.handle = @hk%d/gin.singleton()' % ((h['id'],) * 3))
+      self.fns['use']()
+      self.refs[h['id']] = self.weakref.ref(gin.config.singleton_value('hk%d' % h['id']))
+    elif where == 'binding':
+      o = cls()
+      self.refs[h['id']] = self.weakref.ref(o)
+      gin.bind_parameter(('%s/keep.handle' % h['scope']) if h.get('scope') else 'keep.handle', o)
+    elif where == 'constant':
+      o = cls()
+      self.refs[h['id']] = self.weakref.ref(o)
+      gin.constant('HK%d' % h['id'], o)
+    else:
+      raise AssertionError(h)
+
+  def step(self, op, holders):
+    gin, k = self.gin, op[0]
+    if k == 'bind':
+      gin.bind_parameter(op[1], op[2])
+    elif k == 'unlock-bind':
+      with gin.unlock_config():
+        gin.bind_parameter(op[1], op[2])
+    elif k == 'call':
+      if op[2] is None:
+        self.fns[op[1]]()
+      else:
+        with gin.config_scope(op[2]):
+          self.fns[op[1]]()
+    elif k == 'finalize':
+      gin.finalize()
+    elif k == 'constant':
+      gin.constant(op[1], op[2])
+    elif k == 'singleton':
+      gin.config.singleton_value(op[1], lambda: ('plain', op[1]))
+    elif k == 'import':
+      gin.parse_config('import ' + op[1])
+    elif k == 'hold':
+      self.hold([h for h in holders if h['id'] == op[1]][0])
+    else:
+      raise AssertionError(op)
+
+  def shut(self):
+    self.off = True
+    for f in self.finalizers:
+      f.detach()
+
+
+def fin_script(w, case, constants):
+  """what the cleared gin is asked after clear_config returned; asked of a freshly imported gin as well"""
+  gin = w.gin
+  out = []
+
+  def attempt(label, fn):
+    try:
+      out.append([label, _fin_canon(fn())])
+    except Exception as e:  # pylint: disable=broad-except
+      out.append([label, 'raised ' + type(e).__name__])
+  attempt('config_is_locked()', lambda: bool(gin.config_is_locked()))
+  attempt('config_str()', gin.config_str)
+  attempt('operative_config_str()', gin.operative_config_str)
+  for key in FIN_KEYS + ('keep.handle', 'fin/keep.handle', 'use.handle'):
+    attempt('query_parameter(%r)' % key, lambda key=key: gin.query_parameter(key))
+  for key in sorted({'hk%d' % h['id'] for h in case['holders']} | {'p1', 'p2'}):
+    attempt('singleton_value(%r)' % key, lambda key=key: gin.config.singleton_value(key))
+  for name in constants:
+    attempt('constant %s' % name, lambda name=name: gin.query_parameter(name))
+  for fn in FIN_FNS:
+    for sc in FIN_SCOPES:
+      def call(fn=fn, sc=sc):
+        if sc is None:
+          return w.fns[fn]()
+        with gin.config_scope(sc):
+          return w.fns[fn]()
+      attempt('%s() in scope %r' % (fn, sc), call)
+    attempt('operative_config_str() after %s' % fn, gin.operative_config_str)
+  attempt('bind_parameter afterwards', lambda: gin.bind_parameter('release.flush', 7))
+  attempt('config_str() afterwards', gin.config_str)
+  for name in constants:
+    if name != 'gin.REQUIRED':
+      attempt('constant(%r, 1)' % name, lambda name=name: gin.constant(name, 1))
+      attempt('%%%s in a config' % name, lambda name=name: (gin.parse_config('other.y = %%%s' % name), w.fns['other']())[1])
+  return out
+
+
+class ClearRunsFinalizersEngine(Engine):
+  """clear_config() drops the last reference to objects that only gin's tables kept alive -- cached singletons (made
+  through singleton_value or through a configured @scope/gin.singleton()), bound values, constants -- so their
+  finalizers (`__del__` / `weakref.finalize`) run INSIDE clear_config, and a finalizer may use gin: call a configurable
+  (scoped or not, with or without bindings for it), define a constant, parse an import statement, read the config.
+  Whatever they do, when clear_config returns the state is the one of the property text: unlocked, no bindings, no
+  operative record, no imports, no cached singletons, nothing retained, constants kept iff clear_constants=False
+  (only gin.REQUIRED otherwise); and a script of queries and calls cannot tell it from a freshly imported gin with the
+  same registrations.  Implementation only (the model has no object lifetimes).
+
+  Not generated, because the UNCHANGED tree does not meet the property text there (findings/r5/C20-*.py): finalizers
+  that bind a parameter, create a singleton or call finalize(); a constant-held handle that defines a constant; handles
+  that the operative record references (clear_config then never returns)."""
+  name = 'clear-runs-finalizers'
+  model = False
+  rule = ('histories of binds (root and scoped, failing ones, inside unlock_config), calls, finalize, constants, plain '
+          'singletons and imports, in which 1-3 handles are handed to gin (singleton_value / configured gin.singleton / '
+          'bound value / constant) and referenced from nowhere else; their finalizers (__del__ or weakref.finalize) call '
+          'a configurable, define a constant, parse an import or read the config; then clear_config(b).  non-trivial = '
+          'at least one finalizer ran inside clear_config and used gin successfully.')
+
+  def budget(self, tier):
+    return 160 if tier == 'quick' else 6000
+
+  def corpus(self):
+    def h(i, where, fin, action, **kw):
+      return dict({'id': i, 'where': where, 'fin': fin, 'action': action}, **kw)
+    return [
+        # a shared resource handle, configured as a singleton, released (through a configurable) when dropped
+        {'holders': [h(0, 'config-singleton', 'del', ['call', 'release', None])],
+         'ops': [['bind', 'use.repeat', 2], ['hold', 0], ['call', 'use', None], ['finalize']], 'clear_constants': False},
+        {'holders': [h(0, 'singleton_value', 'weakref', ['call', 'other', 'fin']), h(1, 'binding', 'del', ['call', 'release', 'a/b'])],
+         'ops': [['bind', 'fin/other.x', 3], ['hold', 0], ['hold', 1], ['bind', 'release.nosuch', 1], ['call', 'release', None]],
+         'clear_constants': False},
+        {'holders': [h(0, 'singleton_value', 'del', ['constant', 'ZZ']), h(1, 'singleton_value', 'weakref', ['import', 'math']),
+                     h(2, 'constant', 'del', ['call', 'release', None])],
+         'ops': [['constant', 'p.K', 5], ['hold', 2], ['hold', 0], ['hold', 1], ['singleton', 'p1'], ['call', 'other', None],
+                 ['finalize']], 'clear_constants': True},
+    ]
+
+  def gen(self, rng, tier):
+    cc = rng.random() < 0.5
+    holders = []
+    for i in range(rng.randint(1, 3)):
+      where = rng.choice(['singleton_value', 'singleton_value', 'config-singleton', 'binding', 'constant'])
+      r = rng.random()
+      if r < 0.6:
+        action = ['call', rng.choice(['release', 'release', 'other', 'use']), rng.choice(FIN_SCOPES)]
+      elif r < 0.75 and cc and where != 'constant':
+        action = ['constant', rng.choice(['ZZ', 'z.ZZ', 'K'])]
+      elif r < 0.9:
+        action = ['import', rng.choice(['math', 'json'])]
+      else:
+        action = ['read']
+      hd = {'id': i, 'where': where, 'fin': rng.choice(['del', 'weakref']), 'action': action}
+      if where == 'binding' and rng.random() < 0.4:
+        hd['scope'] = rng.choice(['fin', 'a/b'])
+      holders.append(hd)
+    ops = []
+    for _ in range(rng.randint(0, 8)):
+      r = rng.random()
+      if r < 0.35:
+        key = rng.choice(FIN_KEYS)
+        v = rng.choice([True, False]) if key.endswith('flush') else rng.choice(['n', 't']) if key.endswith(('name', 'tag')) else rng.randint(2, 9)
+        ops.append([rng.choice(['bind', 'bind', 'bind', 'unlock-bind']), key if rng.random() < 0.9 else 'release.nosuch', v])
+      elif r < 0.6:
+        ops.append(['call', rng.choice(['release', 'use', 'other']), rng.choice(FIN_SCOPES)])
+      elif r < 0.7:
+        ops.append(['finalize'])
+      elif r < 0.82:
+        ops.append(['constant', rng.choice(['K', 'p.K', 'q.L']), rng.randint(1, 5)])
+      elif r < 0.92:
+        ops.append(['singleton', rng.choice(['p1', 'p2'])])
+      else:
+        ops.append(['import', rng.choice(['math', 'json', 'string'])])
+    for hd in holders:
+      ops.insert(rng.randint(0, len(ops)), ['hold', hd['id']])
+    return {'holders': holders, 'ops': ops, 'clear_constants': cc}
+
+  def shrink(self, case):
+    used = {o[1] for o in case['ops'] if o[0] == 'hold'}
+    if any(h['id'] not in used for h in case['holders']):
+      yield dict(case, holders=[h for h in case['holders'] if h['id'] in used])
+    for i, o in enumerate(case['ops']):
+      yield dict(case, ops=case['ops'][:i] + case['ops'][i + 1:])
+
+  def impl(self, case):
+    import threading
+    cc = case['clear_constants']
+    a = _FinWorld(case)
+    gin = a.gin
+    fails, tags = [], []
+    held, consts = [], {}
+    by_id = {h['id']: h for h in case['holders']}
+    for op in case['ops']:
+      try:
+        a.step(op, case['holders'])
+        tags.append(op[0] + ':ok')
+        if op[0] == 'hold':
+          held.append(by_id[op[1]])
+        if op[0] == 'constant':
+          consts[op[1]] = op[2]
+      except Exception as e:  # pylint: disable=broad-except
+        tags.append(op[0] + ':err')
+    alive = [h for h in held if a.refs.get(h['id']) is not None and a.refs[h['id']]() is not None]
+    ran_before = len(a.fin_log)
+    res = {}
+
+    def clear():
+      try:
+        gin.clear_config(clear_constants=cc)
+        res['exc'] = None
+      except BaseException as e:  # pylint: disable=broad-except
+        res['exc'] = type(e).__name__
+    t = threading.Thread(target=clear, daemon=True)
+    t.start()
+    t.join(15)
+    what = 'history %r with handles %r, then clear_config(clear_constants=%r)' % (case['ops'], case['holders'], cc)
+    if t.is_alive():
+      a.shut()
+      return {'obs': T('Hung'), 'fails': [('clear-config-did-not-return', what)], 'nontrivial': True, 'tags': tags}
+    if res['exc'] is not None:
+      fails.append(('clear-raised', '%s raised %s' % (what, res['exc'])))
+    ran_inside = a.fin_log[ran_before:]
+    # --- the state right after clear_config returned, item by item of the property text
+    by_fin = sorted({h['action'][1] for h in case['holders'] if h['action'][0] == 'constant'})
+    left = []
+    try:
+      if gin.config_is_locked():
+        left.append('the configuration is locked')
+      s = gin.operative_config_str()
+      if s.strip():
+        left.append('operative_config_str() = %r' % s)
+      s = gin.config_str()
+      if s.strip():
+        left.append('config_str() = %r' % s)
+      for key in sorted({'hk%d' % h['id'] for h in case['holders']} | {'p1', 'p2'}):
+        try:
+          gin.config.singleton_value(key)
+          left.append('singleton %r is still cached' % key)
+        except ValueError:
+          pass
+      dropped = [h for h in alive if cc or h['where'] != 'constant']
+      for h in dropped:
+        if a.refs[h['id']]() is not None:
+          left.append('the handle of holder %d is still referenced' % h['id'])
+      for h in alive:
+        if not cc and h['where'] == 'constant':
+          if a.refs[h['id']]() is None or gin.query_parameter('HK%d' % h['id']) is not a.refs[h['id']]():
+            left.append('constant HK%d did not survive clear_constants=False' % h['id'])
+      for name, v in sorted(consts.items()):
+        try:
+          got = gin.query_parameter(name)
+          if cc:
+            left.append('constant %r still exists after clear_constants=True' % name)
+          elif got != v:
+            left.append('constant %r changed from %r to %r' % (name, v, got))
+        except ValueError:
+          if not cc:
+            left.append('constant %r did not survive clear_constants=False' % name)
+      if cc:
+        for name in by_fin + ['HK%d' % h['id'] for h in case['holders']]:
+          try:
+            gin.query_parameter(name)
+            left.append('constant %r exists after clear_constants=True' % name)
+          except ValueError:
+            pass
+      if gin.query_parameter('gin.REQUIRED') is not gin.REQUIRED:
+        left.append('gin.REQUIRED is not the sentinel')
+    except Exception as e:  # pylint: disable=broad-except
+      left.append('an observer raised %r' % (e,))
+    if left:
+      fails.append(('not-pristine-after-clear-with-finalizers',
+                    'after %s returned (finalizers that ran inside it: %r): %s' % (what, ran_inside, '; '.join(left))))
+    # --- indistinguishable from a freshly imported gin with the same registrations (and the surviving constants)
+    names = sorted(set(consts) | set(by_fin) | {'HK%d' % h['id'] for h in case['holders']} | {'gin.REQUIRED'})
+    b = _FinWorld(case)
+    if not cc:
+      for name, v in consts.items():
+        b.gin.constant(name, v)
+      for h in alive:
+        if h['where'] == 'constant':
+          b.gin.constant('HK%d' % h['id'], object())
+    sa = fin_script(a, case, names)
+    sb = fin_script(b, case, names)
+    for (la, va), (lb, vb) in zip(sa, sb):
+      if va != vb:
+        fails.append(('not-pristine-after-clear', '%s: after %s it gives %r, a fresh gin gives %r' % (la, what, va, vb)))
+        break
+    a.shut()
+    b.shut()
+    obs = T('Cleared', [list(x) for x in ran_inside])
+    nontrivial = any(o == 'ran' and by_id[i]['action'][0] != 'read' for i, o in ran_inside)
+    tags += ['fin:%s/%s/%s' % (h['where'], h['fin'], h['action'][0]) for h in held]
+    tags.append('ran-inside-clear:%d' % len(ran_inside))
+    return {'obs': obs, 'fails': fails[:2], 'nontrivial': nontrivial, 'tags': tags}
+
+
+ENGINES = [ClearEngine(), ClearDuringConstructionEngine(), ClearRunsFinalizersEngine()]
